@@ -402,6 +402,9 @@ def check_c01(tier):
     # fusion backbones: completeness of the peptides of the fused sequence (FusionTrace clause fusion_peptides_complete)
     from checks import c15
     c15.check_c15(tier, rep=rep, only_complete=True)
+    # circRNA backbones: completeness of the peptides of the circle (CircTrace clause circ_peptides_complete)
+    from checks import c17
+    c17.check_c17(tier, rep=rep, only='circ_peptides_complete')
     return rep.finish()
 
 
@@ -413,6 +416,9 @@ def check_c02(tier):
     res = oracle_check(rep, tier, 'C02')
     if res:
         limits_check(rep, tier, *res)
+    # circRNA backbones: every CIRC-labelled peptide is a product of the circle (CircTrace clause circ_peptides_sound)
+    from checks import c17
+    c17.check_c17(tier, rep=rep, only='circ_peptides_sound')
     return rep.finish()
 
 
